@@ -38,6 +38,9 @@ type jcase struct {
 	Seq0 string   `json:"seq0,omitempty"`
 	Pool []string `json:"pool,omitempty"`
 	Evs  []jev    `json:"evs,omitempty"`
+	Op   string   `json:"op,omitempty"`   // gate: unflag | prune | reflag
+	Real bool     `json:"real,omitempty"` // gate: real background loops (else VerifSweep in a goroutine)
+	NDue int      `json:"ndue,omitempty"` // gate: number of peers due in the sweep
 }
 
 const blockDur = 3600 * time.Second
@@ -534,6 +537,182 @@ func runLive(run *hx.Run, jc jcase) {
 	run.Hist("kind.live")
 }
 
+// ------------------------------------------------------------ schedules inside a sweep
+// gateBL is a Blocklister whose first Blocklist call of a case blocks until
+// released; every call and every "API call returned" is appended to one log
+// under one mutex, so the log order is consistent with happens-before.
+type logEnt struct{ kind, addr string }
+type gateBL struct {
+	mu      sync.Mutex
+	log     []logEnt
+	gated   bool
+	entered chan string
+	release chan struct{}
+}
+
+func (g *gateBL) NetworkStatus() p2p.NetworkStatus { return p2p.NetworkStatusAvailable }
+func (g *gateBL) note(kind, addr string) {
+	g.mu.Lock()
+	g.log = append(g.log, logEnt{kind, addr})
+	g.mu.Unlock()
+}
+func (g *gateBL) Blocklist(a boson.Address, d time.Duration, reason string) error {
+	h := hx.Hex(a.Bytes())
+	g.mu.Lock()
+	g.log = append(g.log, logEnt{"blocklist", h})
+	first := !g.gated
+	g.gated = true
+	g.mu.Unlock()
+	if first {
+		g.entered <- h
+		<-g.release
+	}
+	return nil
+}
+
+const gateWait = 150 * time.Millisecond
+
+// runGate: several peers are due; the sweep (real block(), through VerifSweep
+// in a goroutine or through the real sweep loop) is held inside the Blocklist
+// call for the first of them; meanwhile another goroutine calls Unflag /
+// PruneUnseen / Unflag+Flag for ANOTHER due peer and the harness waits a
+// bounded time for it to return (at HEAD it blocks on the mutex until the
+// sweep is over), then lets the sweep go on. Whatever the order, no Blocklist
+// call for that peer may be logged after its Unflag/PruneUnseen returned.
+func runGate(run *hx.Run, jc jcase) {
+	res, ft := time.Duration(jc.Res), time.Duration(jc.Ft)
+	T := int(ft / res)
+	prev := blocker.VerifSetResolution(res)
+	defer blocker.VerifSetResolution(prev)
+	g := &gateBL{entered: make(chan string, 1), release: make(chan struct{})}
+	seen := map[string]bool{}
+	viol := func(sig, detail string) {
+		if !seen[sig] {
+			seen[sig] = true
+			run.Violate(hx.Violation{Sig: sig, Detail: detail, Case: jc})
+		}
+	}
+	due := jc.Pool[:jc.NDue]
+	notDue := jc.Pool[jc.NDue]
+	var b *blocker.Blocker
+	sweepDone := make(chan struct{})
+	if jc.Real {
+		b = blocker.New(g, ft, blockDur, res, nil, logger)
+		for _, a := range due {
+			b.Flag(addrOf(a))
+		}
+	} else {
+		b = blocker.VerifNew(g, ft, blockDur, nil, logger)
+		for _, a := range due {
+			b.Flag(addrOf(a))
+		}
+		b.VerifTick()
+		b.Flag(addrOf(notDue))
+		for i := 0; i < T; i++ {
+			b.VerifTick()
+		}
+		go func() { b.VerifSweep(); close(sweepDone) }()
+	}
+	var X string
+	select {
+	case X = <-g.entered:
+	case <-time.After(20 * time.Second):
+		viol("sweep-race:no-blocklisting-of-due-peers", "no Blocklist call within 20s although peers are due")
+		close(g.release)
+		if jc.Real {
+			_ = b.Close()
+		}
+		run.AddCase("", jc, fmt.Sprintf("%v", jc), false)
+		return
+	}
+	Y := due[0]
+	if Y == X {
+		Y = due[1]
+	}
+	opDone := make(chan struct{})
+	go func() {
+		switch jc.Op {
+		case "prune":
+			var keep []boson.Address
+			for _, a := range jc.Pool {
+				if a != Y {
+					keep = append(keep, addrOf(a))
+				}
+			}
+			b.PruneUnseen(keep)
+			g.note("returned", Y)
+		case "reflag":
+			b.Unflag(addrOf(Y))
+			g.note("returned", Y)
+			b.Flag(addrOf(Y))
+			g.note("reflagged", Y)
+		default:
+			b.Unflag(addrOf(Y))
+			g.note("returned", Y)
+		}
+		close(opDone)
+	}()
+	order := "sweep-finished-first"
+	select {
+	case <-opDone:
+		order = "api-call-returned-inside-the-sweep"
+	case <-time.After(gateWait):
+	}
+	close(g.release)
+	ok := true
+	if !jc.Real {
+		ok = hx.WithTimeout(20*time.Second, func() { <-sweepDone })
+	}
+	ok = hx.WithTimeout(20*time.Second, func() { <-opDone }) && ok
+	if !ok {
+		viol("sweep-race:hang", "sweep or API call did not finish within 20s after the gate was released")
+	}
+	if jc.Real {
+		time.Sleep(20 * res)
+		_ = b.Close()
+	}
+	run.Hist("gate." + order)
+	run.Hist("gate.op=" + jc.Op)
+	// ---- oracle on the log
+	g.mu.Lock()
+	log := append([]logEnt{}, g.log...)
+	g.mu.Unlock()
+	returned := false
+	calls := map[string]int{}
+	for _, e := range log {
+		switch e.kind {
+		case "returned":
+			returned = true
+		case "blocklist":
+			calls[e.addr]++
+			run.OracleChecked(1)
+			if e.addr == Y && returned {
+				viol("sweep-race:blocklisted-after-"+jc.Op+"-returned", fmt.Sprintf("Blocklist(%s) was called after %s of that peer had returned (sweep held in Blocklist(%s)); log %v", Y, jc.Op, X, log))
+			}
+		}
+	}
+	run.OracleChecked(len(due) + 2)
+	for _, a := range due {
+		if a != Y && calls[a] != 1 && !jc.Real {
+			viol("sweep-race:due-peer-not-blocklisted-once", fmt.Sprintf("%s blocklisted %d times", a, calls[a]))
+		}
+		if calls[a] > 1 {
+			viol("blocked:twice-in-one-flag-period", fmt.Sprintf("%s blocklisted %d times", a, calls[a]))
+		}
+	}
+	if !jc.Real && calls[notDue] > 0 {
+		viol("blocked:before-flag-timeout", "peer flagged one tick later was blocklisted by the same sweep")
+	}
+	if jc.Op == "reflag" {
+		// Flag returned after every Unflag, the network was available, nothing ended the new period
+		if _, ok := b.VerifFlagged()[string(unhex(Y))]; !ok {
+			viol("sweep-race:reflag-lost", fmt.Sprintf("%s was flagged again after its Unflag, no Unflag/Prune/timeout since, but it is not flagged any more", Y))
+		}
+	}
+	run.AddCase("", jc, fmt.Sprintf("%v", jc), true)
+	run.Hist("kind.gate")
+}
+
 // ------------------------------------------------------------ generators
 func genPool(r *hx.Rand) []string {
 	base := r.Bytes(32)
@@ -640,6 +819,12 @@ func corpus() []jcase {
 		// the real sequencer and sweep goroutines through an outage 12x the flag timeout (seeded change C26-2)
 		{Kind: "live", Ft: 12000000, Res: 2000000, Pool: append(append([]string{}, pool...), a(4), a(5))},
 		{Kind: "live", Ft: 16500000, Res: 3000000, Pool: append(append([]string{}, pool...), a(4), a(5))},
+		// Unflag / PruneUnseen / Unflag+Flag of a due peer while the sweep is held in Blocklist for another one (seeded change C26-3)
+		{Kind: "gate", Ft: 2000000000, Res: 1000000000, Op: "unflag", NDue: 2, Pool: append(append([]string{}, pool...), a(4))},
+		{Kind: "gate", Ft: 2500000000, Res: 1000000000, Op: "prune", NDue: 3, Pool: append(append([]string{}, pool...), a(4))},
+		{Kind: "gate", Ft: 3000000001, Res: 1000000000, Op: "reflag", NDue: 2, Pool: append(append([]string{}, pool...), a(4))},
+		{Kind: "gate", Ft: 6000000, Res: 2000000, Op: "unflag", NDue: 3, Real: true, Pool: append(append([]string{}, pool...), a(4))},
+		{Kind: "gate", Ft: 6000000, Res: 2000000, Op: "prune", NDue: 2, Real: true, Pool: append(append([]string{}, pool...), a(4))},
 	}
 }
 
@@ -649,6 +834,8 @@ func dispatch(run *hx.Run, jc jcase) {
 		runNew(run, jc)
 	case "live":
 		runLive(run, jc)
+	case "gate":
+		runGate(run, jc)
 	default:
 		runHist(run, jc)
 	}
@@ -687,6 +874,20 @@ func main() {
 		res := int64(2000000 + r.Intn(3)*1000000) // 2..4 ms
 		t := int64(2 + r.Intn(5))
 		dispatch(run, jcase{Kind: "live", Ft: t*res + int64(r.Intn(int(res))), Res: res, Pool: genPool(r)})
+	}
+	for i := 0; i < run.N(4, 40); i++ {
+		real := r.Chance(1, 3)
+		ops := []string{"unflag", "prune", "reflag"}
+		jc := jcase{Kind: "gate", Real: real, NDue: 2 + r.Intn(3), Pool: genPool(r)}
+		if real {
+			jc.Res = int64(2000000 + r.Intn(2)*1000000)
+			jc.Op = ops[r.Intn(2)]
+		} else {
+			jc.Res = 1000000000
+			jc.Op = ops[r.Intn(3)]
+		}
+		jc.Ft = int64(2+r.Intn(3))*jc.Res + int64(r.Intn(int(jc.Res)))
+		dispatch(run, jc)
 	}
 	run.Finish()
 }
